@@ -27,7 +27,7 @@ def step_tags(w, ins, owner):
     fired = w.cur_info.get('fired')
     base = ['C09'] if fired else [owner]
     if w.cur_info.get('raised') and w.cur_info.get('expected_raise'):
-        base = ['C17'] + (['C12'] if w.cur_info.get('fault') else [])
+        base = ['C17'] + (['C12'] if w.cur_info.get('fault') not in (None, 'alloc') else [])
     elif getattr(w, 'prev_raised', False):
         base = base + ['C17']
     auto = w.flavor == 'autoref'
@@ -75,7 +75,29 @@ def execute(w, ins):
             dyn_before.append((g_.raw, bool(g_.api.configure().get('reordering'))))
         except Exception:
             dyn_before.append((g_.raw, False))
-    r = fn(w, ins)
+    limit = None
+    if ins.get('alloc') is not None and ins['op'] in ops.ALLOC_OPS and not w.cur_info.get('dyn_on') \
+            and w.pending_final is None and w.pending_line is None:
+        # F-alloc: the manager may grow by about `alloc` nodes, then it is full
+        try:
+            limit = (g0.raw, g0.raw.max_nodes)
+            g0.raw.max_nodes = max(g0.raw._succ) + 1 + ins['alloc']
+            w.alloc_armed = True
+            w.stats['alloc_limit_armed'] += 1
+        except Exception:
+            limit = None
+    try:
+        r = fn(w, ins)
+    except ops.AllocFault:
+        # the call ran out of nodes: a failed call like any other (C17)
+        r = 'full'
+        w.cur_info['expected_raise'] = True
+        w.stats['alloc_fault'] += 1
+        w.stats['alloc_fault:' + ins['op']] += 1
+    finally:
+        if limit is not None:
+            limit[0].max_nodes = limit[1]
+            w.alloc_armed = False
     w.last_call = None
     w.touch()   # temporaries of the executor are gone now: observe afresh
     st, cn, dn = step_tags(w, ins, owner)
